@@ -154,25 +154,28 @@ def main():
     day0 = datetime.date(2020, 1, 1)
     for c, cc in zip([x for x in cases if x.lens], comp):
         if c.error:
+            # no model of this wiring: exit 2 for the model - the REAL renders are still judged (below, with t = None)
             machinery.append("%s: %s" % (c.key(), c.error))
-            continue
-        cov.add_tlc(c.tlc)
+        else:
+            cov.add_tlc(c.tlc)
         cov.instances += 1
         for lv in c.lens:
             n = lv[0]
             real = c.real.get((n,))
-            terms = c.terms.get((n,), [])
-            if real is None or len(terms) != 1:
-                machinery.append("%s n=%d: %d terminal states / real %s" % (c.key(), n, len(terms), real is not None))
+            terms = [] if c.error else c.terms.get((n,), [])
+            if real is None:
+                machinery.append("%s n=%d: no real result" % (c.key(), n))
                 continue
-            t = terms[0]
+            if len(terms) != 1 and not c.error:
+                machinery.append("%s n=%d: %d terminal states in the model" % (c.key(), n, len(terms)))
+            t = terms[0] if len(terms) == 1 else None
             cov.nontrivial.add((c.pipe, tuple(c.cfg), n))
             replay = {"pipe": c.pipe, "cfg": c.cfg, "n": n, "mode": "report",
-                      "model": {"done": t["done"], "ran": t["ran"], "leftover": t["leftover"], "colAligned": t["colAligned"],
-                                "colBalanced": t["colBalanced"], "stuck": t["stuck"]}}
+                      "model": None if t is None else {"done": t["done"], "ran": t["ran"], "leftover": t["leftover"], "colAligned": t["colAligned"],
+                                                       "colBalanced": t["colBalanced"], "stuck": t["stuck"]}}
             if real.get("deadlock"):
                 V.violation({"pipe": c.pipe, "symptom": "deadlock"}, "%s n=%d: rendering the report hangs" % (c.key(), n), replay)
-                if t["done"]:
+                if t is not None and t["done"]:
                     machinery.append("MODEL-DIVERGENCE %s n=%d: real hangs, model terminates" % (c.key(), n))
                 continue
             if real.get("crash") or real.get("err"):
@@ -185,13 +188,12 @@ def main():
             replay["real_rows"] = len(rows)
             nleak = len(real.get("leaks") or [])
             # --- model vs real
-            mleft = sum((t["leftover"] or {}).values()) if isinstance(t["leftover"], dict) else 0
+            mleft = sum((t["leftover"] or {}).values()) if (t is not None and isinstance(t["leftover"], dict)) else 0
             rleft = sum(x["left"] for x in cols)
-            mstuck = len(pe.stuck_procs(t))
-            mran = sum((t["ran"] or {}).values()) if isinstance(t["ran"], dict) else 0
+            mstuck = len(pe.stuck_procs(t)) if t is not None else 0
             model_bad = bool(mleft or mstuck)
             real_bad = bool(rleft or nleak)
-            if model_bad != real_bad or mstuck != nleak:
+            if t is not None and (model_bad != real_bad or mstuck != nleak):
                 machinery.append("MODEL-DIVERGENCE %s n=%d: left-over values real %d model %d (buffered); parked goroutines "
                                  "real %d model %d" % (c.key(), n, rleft, mleft, nleak, mstuck))
             # --- property on the real code
@@ -263,6 +265,8 @@ def main():
                                         "%s n=%d: the row of date %d prints outcome %s, the portfolio outcome as of that date is %r"
                                         % (c.key(), n, d, r[-1], oc[d]), replay)
                             break
+            if t is None:
+                continue
             if t["done"] and not t.get("closeCol", True):
                 cov.notes.append("%s n=%d: model: the Close column is not fed from the Close field" % (c.key(), n))
             # model-only claim: a value plotted against another date -> confirm on the real code by perturbation
